@@ -28,6 +28,8 @@ def numel(e, psizes):
 def _shapes_for(n, depth, sums=(0, 1, 2)):
     """axis-expression *shapes* of numel n: leaves are ('L', size) placeholders"""
     out = []
+    if n == 0:
+        return [('L', 0)]
     if n == 1:
         out.append(('u',))
     if n >= 2:
@@ -172,6 +174,121 @@ def depict(r):
             return '(' + '*'.join(d(f) for f in e[1:]) + ')'
         return f'({e[1]}+{d(e[2])}+{e[3]})'
     return '[' + ', '.join(d(v) for v in r['vaxes']) + ']/' + r['layout']
+
+
+# --------------------------------------------------------------------------
+# index *types* and well-typed patterns
+#
+#   type ::= ['n', k]                    atomic index type with k values
+#          | ['x', type, type]           product type
+#          | ['+', type, ..., type]      (n-ary) sum type
+#
+# A pattern (axis expression) is an *instance* of a type if it is a physical axis (or the
+# unit axis) of the type's numel, a product of instances of the factors, or an injection
+# SumAxis(before, instance of the j-th summand, after) where before/after are the total
+# sizes of the other summands.  Two instances of one type always have compatible layouts:
+# co-indexing them in an einsum, or comparing them, is what the library calls well typed.
+
+def tnumel(t):
+    if t[0] == 'n':
+        return t[1]
+    if t[0] == 'x':
+        return tnumel(t[1]) * tnumel(t[2])
+    return sum(tnumel(c) for c in t[1:])
+
+
+def types_for(n, depth=1, max_summands=3):
+    out = [['n', n]]
+    if depth <= 0 or n <= 1:
+        return out
+    for a in range(2, n):
+        if n % a == 0 and n // a >= 2:
+            for ta in types_for(a, depth - 1):
+                for tb in types_for(n // a, depth - 1):
+                    out.append(['x', ta, tb])
+    # sums of 2..max_summands parts
+    def comps(total, k):
+        if k == 1:
+            yield (total,)
+            return
+        for first in range(1, total - k + 2):
+            for rest in comps(total - first, k - 1):
+                yield (first,) + rest
+    for k in range(2, max_summands + 1):
+        for parts in comps(n, k):
+            kids = [types_for(p, depth - 1) for p in parts]
+            for combo in itertools.product(*kids):
+                if all(c[0] != '+' for c in combo):
+                    out.append(['+'] + list(combo))
+    return out
+
+
+def instances(t):
+    """axis-expression shapes (with ('L', size) leaf placeholders) that are instances of type t"""
+    n = tnumel(t)
+    out = [('u',)] if n == 1 else [('L', n)]
+    if t[0] == 'x':
+        for a in instances(t[1]):
+            for b in instances(t[2]):
+                if a[0] == 'u':
+                    e = b
+                elif b[0] == 'u':
+                    e = a
+                else:
+                    e = ('prod', a, b)
+                if e not in out:
+                    out.append(e)
+    elif t[0] == '+':
+        sizes = [tnumel(c) for c in t[1:]]
+        for j, c in enumerate(t[1:]):
+            for e in instances(c):
+                out.append(('sum', sum(sizes[:j]), e, sum(sizes[j + 1:])))
+    return out
+
+
+def typed_recipes(types, max_axes=3, max_phys=8, layouts=('contig',), same_axis_in_product=False):
+    """all recipes whose d-th virtual axis is an instance of types[d]"""
+    per_dim = [instances(t) for t in types]
+    out = []
+    for combo in itertools.product(*per_dim):
+        sizes = []
+        for e in combo:
+            _leaves(e, sizes)
+        for assign, axsizes in _partitions(sizes, max_axes):
+            pn = 1
+            for s_ in axsizes:
+                pn *= s_
+            if pn > max_phys:
+                continue
+            it = iter(assign)
+            vaxes = [_assign(e, it) for e in combo]
+            if not same_axis_in_product and any(_dup_in_product(v) for v in vaxes):
+                continue
+            for lay in layouts:
+                if lay == 'perm' and len(axsizes) < 2:
+                    continue
+                if lay.startswith('expand'):
+                    for i in range(len(axsizes)):
+                        if axsizes[i] > 1:
+                            out.append({'psizes': axsizes, 'vaxes': vaxes, 'layout': f'expand:{i}'})
+                else:
+                    out.append({'psizes': axsizes, 'vaxes': vaxes, 'layout': lay})
+    return out
+
+
+def type_tuples(shape, depth=1, cap=None):
+    """all tuples of index types for the given virtual shape"""
+    per = [types_for(n, depth) for n in shape]
+    out = [list(c) for c in itertools.product(*per)]
+    return out[:cap] if cap else out
+
+
+def depict_type(t):
+    if t[0] == 'n':
+        return str(t[1])
+    if t[0] == 'x':
+        return '(' + depict_type(t[1]) + 'x' + depict_type(t[2]) + ')'
+    return '(' + '+'.join(depict_type(c) for c in t[1:]) + ')'
 
 
 # --------------------------------------------------------------------------
